@@ -29,8 +29,7 @@ func (in *Interp) concretizeSmall(t *Term, what string, capN int) (uint64, bool)
 	var vals []uint64
 	var excl []*Term
 	for {
-		as := append(append(append([]*Term{}, in.pc...), in.dynAxioms()...), excl...)
-		r, m := in.sol.Check(as, []*Term{t})
+		r, m := in.sol.CheckPC(in.pc, append(in.dynAxioms(), excl...), []*Term{t})
 		if r == "unsat" {
 			break
 		}
